@@ -10,7 +10,7 @@
    3. Executable wrappers on the list instance LM (option bigQ entries), used by the correspondence. *)
 From Coq Require Import ZArith List Bool.
 From Bignums Require Import BigQ.
-From Verif Require Import lib.MxC18.
+From Verif Require Import lib.MxC18 gen.RedVarGen.
 Import ListNotations.
 
 (* ================================================================== *)
@@ -73,9 +73,8 @@ Section Algebra.
 Variable M : MatOps.
 Notation mx := (mx M).
 
-(* fords/least_squares.py::ordinary_least_squares : solve(rhs rhs', rhs lhs')' *)
-Definition ols {n r N : nat} (L : mx n N) (R : mx r N) : mx n r :=
-  mtr (msolve (mmul R (mtr R)) (mmul R (mtr L))).
+(* fords/least_squares.py::ordinary_least_squares : solve(rhs rhs', rhs lhs')', regenerated from the source *)
+Definition ols {n r N : nat} (L : mx n N) (R : mx r N) : mx n r := gen_ols L R.
 
 Section Dims.
 Variables n q m k : nat.     (* endogenous, order - 1, exogenous, intercept (0 or 1) *)
@@ -93,14 +92,15 @@ Definition coef_c (beta : mx n nr) : mx n k := mrsub (mrsub (n1 := np) beta).
 (* u = y0 - A @ y1 - B @ x - c.reshape(-1, 1)   (all columns, fitted or not) *)
 Definition residuals {N : nat} (A : mx n np) (B : mx n m) (c : mx n k)
     (Y0 : mx n N) (Y1 : mx np N) (X : mx m N) (Kc : mx k N) : mx n N :=
-  msub (msub (msub Y0 (mmul A Y1)) (mmul B X)) (mmul c Kc).
+  gen_residuals Y0 A Y1 B X (mmul c Kc).
 
 (* symmetrize(u_w u_w' / (nfit - d)) *)
 Definition second_moment {Nw : nat} (d : nat) (Uw : mx n Nw) : mx n n :=
-  let S := mscale (sc_inv M (sc_sub M (sc_of_nat M Nw) (sc_of_nat M d))) (mmul Uw (mtr Uw)) in
-  mscale (sc_inv M (sc_of_nat M 2)) (madd S (mtr S)).
+  gen_symmetrize (gen_cov_residuals Uw (sc_sub M (sc_of_nat M Nw) (sc_of_nat M d))).
 
-Definition dof_count (dof_correction : bool) : nat := if dof_correction then m + k else 0.
+(* what is subtracted from the number of fitted periods (regenerated: num_exogenous + int(has_intercept)) *)
+Definition dof_count (dof_correction : bool) : nat :=
+  gen_dof_subtrahend n (S q) (negb (Nat.eqb k 0)) m dof_correction.
 
 (* _estimate_variant after the data have been stacked: w selects the fitted columns,
    (Ld, Rd) are the prior dummy observations (zero columns when there is no prior) *)
@@ -163,6 +163,7 @@ Arguments coef_B {M n q m k}.
 Arguments coef_c {M n q m k}.
 Arguments residuals {M n q m k N}.
 Arguments second_moment {M n Nw}.
+Arguments dof_count n q m k dof_correction : assert.
 Arguments estimate_core {M n q m k N Nw Nd}.
 Arguments companion_T {M n q}.
 Arguments cvec {M n k}.
@@ -196,7 +197,10 @@ Definition ldiag (d : list V) : lmx :=
   let s := length d in tab s s (fun i j => if Nat.eqb i j then nth i d None else vzero).
 
 Definition prior_num_obs (n p k : nat) (pr : prior) : nat :=
-  match pr with Minnesota _ _ _ => n * p | MeanPrior _ _ => k end.
+  match pr with
+  | Minnesota _ _ _ => gen_minnesota_num_obs n p (negb (Nat.eqb k 0)) 0
+  | MeanPrior _ _ => gen_mean_num_obs n p (negb (Nat.eqb k 0)) 0
+  end.
 
 Definition prior_lhs (n p m k : nat) (pr : prior) : lmx :=
   match pr with
@@ -277,13 +281,15 @@ Definition run_acov (n q : nat) (A Om : lmx) (upto : nat) : list lmx :=
 (* ================================================================== *)
 (* 4. Comparison of one implementation run with the model (correspondence case files)   *)
 (* ================================================================== *)
+Record acc_expect := mkAcc {
+  x_mean : lmx; x_poly : list V; x_T : lmx; x_P : lmx; x_K : lmx; x_Om : lmx; x_acov : list lmx }.
+
 Record expect := mkExpect {
   x_y0 : lmx; x_y1 : lmx; x_x : lmx; x_k : lmx; x_where : list bool; x_fitted : list nat;
   x_L : lmx; x_R : lmx;
   x_A : lmx; x_B : lmx; x_c : lmx; x_U : lmx; x_cov : lmx;
-  x_mean : lmx; x_poly : list V; x_T : lmx; x_P : lmx; x_K : lmx;
-  x_Om : lmx; x_acov : list lmx;
-  x_sim : option lmx   (* None: infinite observations in the data, simulation not compared *) }.
+  x_acc : option acc_expect;   (* None: the accessors were not observed (non-finite estimates) *)
+  x_sim : option lmx           (* None: infinite observations / non-finite estimates, simulation not compared *) }.
 
 Definition flag (code : nat) (ok : bool) : list nat := if ok then [] else [code].
 Definition bools_eq (a b : list bool) : bool := all2 Bool.eqb a b.
@@ -313,12 +319,16 @@ Definition check (tol : bigQ) (n q m k : nat) (omit_missing dof : bool) (priors 
       ++ flag 7 (mx_close tol (o_c o) (x_c e))
       ++ flag 8 (mx_close tol (o_U o) (x_U e))
       ++ flag 9 (mx_close tol (o_cov o) (x_cov e))
-      ++ flag 10 (mx_close tol (run_mean n q k (o_A o) (o_c o)) (x_mean e))
-      ++ flag 11 (all2 (vclose tol) (run_charpoly n q (o_A o)) (x_poly e))
-      ++ flag 12 (mx_close tol Tm (x_T e) && mx_close tol (run_companion_P n q) (x_P e)
-                  && mx_close tol (run_companion_K n q k (o_c o)) (x_K e))
-      ++ flag 13 (mx_close tol (lzip vsub (x_Om e) (run_lyap_residual n q (o_A o) (o_cov o) (x_Om e))) (x_Om e))
-      ++ flag 14 (all2 (mx_close tol) (run_acov n q (o_A o) (x_Om e) (length (x_acov e) - 1)) (x_acov e))
+      ++ match x_acc e with
+         | Some a =>
+             flag 10 (mx_close tol (run_mean n q k (o_A o) (o_c o)) (x_mean a))
+             ++ flag 11 (all2 (vclose tol) (run_charpoly n q (o_A o)) (x_poly a))
+             ++ flag 12 (mx_close tol Tm (x_T a) && mx_close tol (run_companion_P n q) (x_P a)
+                         && mx_close tol (run_companion_K n q k (o_c o)) (x_K a))
+             ++ flag 13 (mx_close tol (lzip vsub (x_Om a) (run_lyap_residual n q (o_A o) (o_cov o) (x_Om a))) (x_Om a))
+             ++ flag 14 (all2 (mx_close tol) (run_acov n q (o_A o) (x_Om a) (length (x_acov a) - 1)) (x_acov a))
+         | None => []
+         end
       ++ match x_sim e with
          | Some sim => flag 15 (mx_close tol (run_simulate n q m k (o_A o) (o_B o) (o_c o) ys xs us) sim)
          | None => []
